@@ -4,6 +4,8 @@ import PhysisModel.Spec.Crc32
 import PhysisModel.Base.HexFast
 import PhysisModel.Model.Sha1
 import PhysisModel.Spec.Sha1
+import PhysisModel.Spec.Archive
+import PhysisModel.Driver.C10
 namespace Physis.Driver.C12
 open Physis Physis.Proto
 
@@ -25,6 +27,34 @@ def handle (line : String) : String :=
     match Bytes.ofHexBig h with
     | some bs => answer "=" (Bytes.toHex (Spec.Sha1.sha1 bs)) [] (some (Bytes.toHex (Sha1.sha1 bs)))
     | none => bad
+  | ["new", _] =>
+    -- digests of several files hashed by ONE `FileInfo::new` call (state surviving between the
+    -- files of a call would show here): C10's `new` case, shared
+    Physis.Driver.C10.handle line
+  | ["idxci", k, ph] =>
+    -- letter case must not matter for a path hash at the index level either, under both index
+    -- kinds, with and without a folder part: an index file (Spec/Archive encoder) that stores the
+    -- hash of the LOWER-CASED path must answer the query spelled as given
+    match Bytes.ofHexFast ph, k.toNat? with
+    | some p, some kn =>
+      let lp := p.map asciiLower
+      let crc := fun (b : Bytes) => Spec.Crc32.crcBitwise 0xFFFFFFFF 0 b
+      let kind : Option Spec.Archive.Kind := if kn = 1 then some .index1 else if kn = 2 then some .index2 else none
+      match kind with
+      | none => bad
+      | some kind =>
+        let h : Spec.Archive.Hash := match kind with
+          | .index2 => .full (crc lp)
+          | .index1 =>
+            match Str.rsplitOnce Str.slash lp with
+            | some (folder, file) => .split (crc file) (crc folder)
+            | none => .split (crc lp) (crc [])      -- a file outside any folder: folder = ""
+        let f : Spec.Archive.IndexFile :=
+          { platform := .win32, kind := kind,
+            entries := [{ hash := h, synonym := false, datId := 1, offset := 256 }],
+            dataSeg := [], folderSeg := [] }
+        answer (Bytes.toHex (Spec.Archive.encodeIndex f) ++ " " ++ ph) "d1o256"
+    | _, _ => bad
   | _ => bad
 
 end Physis.Driver.C12
